@@ -1,2 +1,285 @@
-//! C03 workload (under construction).
-fn main() {}
+//! C03 — division and remainder through the Uint API vs BigUint, with the
+//! coverage hooks showing which Knuth / MG10 paths each workload reached.
+
+use num_bigint::BigUint;
+use num_traits::{One, Zero};
+use ruint::Uint;
+use vmon::{au, big, divgen, gen, uint, Arg, Mon};
+
+vmon::widths!(exec; 0, 1, 2, 3, 4, 7, 8, 31, 32, 60, 63, 64, 65, 100, 127, 128, 129, 160, 192, 193,
+    250, 255, 256, 257, 320, 384, 512, 521, 768, 1024, 2048, 4096);
+
+fn exec<const B: usize, const L: usize>(m: &mut Mon, op: &str, a: &[Arg]) {
+    match op {
+        "divrem" => {
+            let (x, y): (Uint<B, L>, Uint<B, L>) = (uint(a[0].u()), uint(a[1].u()));
+            let (bn, bd) = (big::big(a[0].u()), big::big(a[1].u()));
+            if bd.is_zero() {
+                m.nontrivial(false);
+                // panicking forms panic, checked forms return None
+                m.must_panic(|| x.div_rem(y), "zero divisor");
+                m.must_panic(|| x / y, "zero divisor");
+                m.must_panic(|| x % y, "zero divisor");
+                m.must_panic(|| &x / &y, "zero divisor");
+                m.must_panic(|| &x % &y, "zero divisor");
+                m.must_panic(
+                    || {
+                        let mut z = x;
+                        z /= y;
+                        z
+                    },
+                    "zero divisor",
+                );
+                m.must_panic(
+                    || {
+                        let mut z = x;
+                        z %= y;
+                        z
+                    },
+                    "zero divisor",
+                );
+                m.must_panic(|| x.wrapping_div(y), "zero divisor");
+                m.must_panic(|| x.wrapping_rem(y), "zero divisor");
+                m.must_panic(|| x.div_ceil(y), "zero divisor");
+                m.must_panic(|| x.next_multiple_of(y), "zero divisor");
+                if let Some(v) = m.must(|| x.checked_div(y)) {
+                    m.eq("checked_div.zero", &v.is_none(), &true);
+                }
+                if let Some(v) = m.must(|| x.checked_rem(y)) {
+                    m.eq("checked_rem.zero", &v.is_none(), &true);
+                }
+                if let Some(v) = m.must(|| x.checked_next_multiple_of(y)) {
+                    m.eq("checked_next_multiple_of.zero", &v.is_none(), &true);
+                }
+                return;
+            }
+            let q = &bn / &bd;
+            let r = &bn % &bd;
+            let (eq, er) = (big::limbs(&q, L), big::limbs(&r, L));
+            m.nontrivial(bd > BigUint::one() && bn >= bd);
+            m.obs(|| format!("q={} r={}", big::hex(&eq), big::hex(&er)));
+            if let Some((vq, vr)) = m.must(|| x.div_rem(y)) {
+                m.eq_uint("div_rem.q", &vq, &eq);
+                m.eq_uint("div_rem.r", &vr, &er);
+            }
+            if let Some(v) = m.must(|| x / y) {
+                m.eq_uint("op/.vv", &v, &eq);
+            }
+            if let Some(v) = m.must(|| x / &y) {
+                m.eq_uint("op/.vr", &v, &eq);
+            }
+            if let Some(v) = m.must(|| &x / y) {
+                m.eq_uint("op/.rv", &v, &eq);
+            }
+            if let Some(v) = m.must(|| &x / &y) {
+                m.eq_uint("op/.rr", &v, &eq);
+            }
+            if let Some(v) = m.must(|| {
+                let mut z = x;
+                z /= y;
+                z
+            }) {
+                m.eq_uint("op/=.v", &v, &eq);
+            }
+            if let Some(v) = m.must(|| {
+                let mut z = x;
+                z /= &y;
+                z
+            }) {
+                m.eq_uint("op/=.r", &v, &eq);
+            }
+            if let Some(v) = m.must(|| x % y) {
+                m.eq_uint("op%.vv", &v, &er);
+            }
+            if let Some(v) = m.must(|| x % &y) {
+                m.eq_uint("op%.vr", &v, &er);
+            }
+            if let Some(v) = m.must(|| &x % y) {
+                m.eq_uint("op%.rv", &v, &er);
+            }
+            if let Some(v) = m.must(|| &x % &y) {
+                m.eq_uint("op%.rr", &v, &er);
+            }
+            if let Some(v) = m.must(|| {
+                let mut z = x;
+                z %= y;
+                z
+            }) {
+                m.eq_uint("op%=.v", &v, &er);
+            }
+            if let Some(v) = m.must(|| {
+                let mut z = x;
+                z %= &y;
+                z
+            }) {
+                m.eq_uint("op%=.r", &v, &er);
+            }
+            if let Some(v) = m.must(|| x.wrapping_div(y)) {
+                m.eq_uint("wrapping_div", &v, &eq);
+            }
+            if let Some(v) = m.must(|| x.wrapping_rem(y)) {
+                m.eq_uint("wrapping_rem", &v, &er);
+            }
+            if let Some(v) = m.must(|| x.checked_div(y)) {
+                match v {
+                    Some(v) => {
+                        m.eq_uint("checked_div", &v, &eq);
+                    }
+                    None => m.fail("checked_div.none", "Some(q)", "None"),
+                }
+            }
+            if let Some(v) = m.must(|| x.checked_rem(y)) {
+                match v {
+                    Some(v) => {
+                        m.eq_uint("checked_rem", &v, &er);
+                    }
+                    None => m.fail("checked_rem.none", "Some(r)", "None"),
+                }
+            }
+            let ceil = if r.is_zero() { q.clone() } else { &q + 1u32 };
+            if let Some(v) = m.must(|| x.div_ceil(y)) {
+                m.eq_uint("div_ceil", &v, &big::limbs(&ceil, L));
+            }
+            let mult = &ceil * &bd;
+            let fits = big::fits(&mult, B);
+            if let Some(v) = m.must(|| x.checked_next_multiple_of(y)) {
+                match v {
+                    Some(v) => {
+                        if m.eq("checked_next_multiple_of.some", &true, &fits) {
+                            m.eq_uint("checked_next_multiple_of", &v, &big::limbs(&mult, L));
+                        }
+                    }
+                    None => {
+                        m.eq("checked_next_multiple_of.none", &true, &!fits);
+                    }
+                }
+            }
+            if fits {
+                if let Some(v) = m.must_in("next_multiple_of", || x.next_multiple_of(y)) {
+                    m.eq_uint("next_multiple_of", &v, &big::limbs(&mult, L));
+                }
+            } else {
+                // documented: panics when the multiple does not fit
+                m.must_panic(|| x.next_multiple_of(y), "multiple does not fit");
+            }
+        }
+        _ => panic!("harness: unknown op {op}"),
+    }
+}
+
+fn case(m: &mut Mon, bits: usize, n: &[u64], d: &[u64]) {
+    m.case("divrem", bits, vec![au(n), au(d)]);
+}
+
+fn big_case(m: &mut Mon, bits: usize, n: &BigUint, d: &BigUint) {
+    let l = gen::nlimbs(bits);
+    if big::fits(n, bits) && big::fits(d, bits) {
+        case(m, bits, &big::limbs(n, l), &big::limbs(d, l));
+    }
+}
+
+fn workload(m: &mut Mon, bits: usize) {
+    let l = gen::nlimbs(bits);
+    if bits <= 4 {
+        for a in 0..(1u64 << bits) {
+            for b in 0..(1u64 << bits) {
+                if !m.keep() {
+                    continue;
+                }
+                case(m, bits, &gen::small(a, bits), &gen::small(b, bits));
+            }
+        }
+        if !m.is_light() {
+            m.mark_exhaustive(format!("all (n, d) pairs including d = 0 at BITS={bits}"));
+        }
+    }
+    if bits == 0 {
+        return;
+    }
+    // boundary grid
+    let bd = gen::boundary(bits);
+    let mut r = m.stream("c03.directed", bits);
+    for a in &bd {
+        if !m.keep() {
+            continue;
+        }
+        let mut partners = vec![a.clone(), gen::zero(bits), gen::max(bits), gen::small(1, bits), gen::small(2, bits),
+                                gen::small(3, bits), gen::small(10, bits), gen::pow2(bits - 1, bits),
+                                gen::pow2(bits / 2, bits), gen::ones(bits / 2, bits)];
+        for _ in 0..6 {
+            partners.push(r.pick(&bd).clone());
+        }
+        for b in &partners {
+            case(m, bits, a, b);
+            case(m, bits, b, a);
+        }
+    }
+    // divisor length x top-limb shift grid x every recipe
+    let mut r = m.stream("c03.recipes", bits);
+    let dls: Vec<usize> = if l <= 8 {
+        (1..=l).collect()
+    } else {
+        let mut v = vec![1, 2, 3, 4, 5, l / 4, l / 2, l / 2 + 1, l - 2, l - 1, l];
+        v.sort_unstable();
+        v.dedup();
+        v
+    };
+    let reps = m.iters(if bits <= 512 { 3 } else { 1 });
+    for &dl in &dls {
+        for topbits in 1..=64usize {
+            if 64 * (dl - 1) + topbits > bits {
+                continue;
+            }
+            if !m.keep() {
+                continue;
+            }
+            for recipe in 0..8 {
+                for _ in 0..reps {
+                    let d = divgen::divisor(&mut r, dl, topbits);
+                    let bd_ = big::big(&d);
+                    let n = divgen::numerator(&mut r, &bd_, bits, recipe);
+                    big_case(m, bits, &n, &bd_);
+                }
+            }
+        }
+        if m.time_up() {
+            break;
+        }
+    }
+    // random: hostile divisor of random shape, numerator by random recipe
+    let mut r = m.stream("c03.random", bits);
+    let iters = m.iters(if bits <= 256 { 5000 } else if bits <= 1024 { 1500 } else { 300 });
+    for i in 0..iters {
+        if i % 128 == 0 && m.time_up() {
+            break;
+        }
+        if r.chance(1, 5) {
+            let n = gen::hostile(&mut r, bits);
+            let d = gen::hostile(&mut r, bits);
+            case(m, bits, &n, &d);
+            continue;
+        }
+        let dl = r.range(1, l);
+        let maxtop = if dl == l && bits % 64 != 0 { bits % 64 } else { 64 };
+        let topbits = r.range(1, maxtop);
+        let d = divgen::divisor(&mut r, dl, topbits);
+        let bd_ = big::big(&d);
+        let recipe = r.below(8);
+        let n = divgen::numerator(&mut r, &bd_, bits, recipe);
+        big_case(m, bits, &n, &bd_);
+    }
+    let _ = BigUint::one();
+}
+
+fn main() {
+    let mut m = Mon::new("C03", dispatch);
+    m.use_hooks = true;
+    if !m.replay_if_requested() {
+        for &bits in WIDTHS {
+            if m.width_enabled(bits) {
+                workload(&mut m, bits);
+            }
+        }
+    }
+    m.finish();
+}
